@@ -28,38 +28,47 @@
 (***************************************************************************)
 EXTENDS Integers, Sequences, FiniteSets, TLC, Json
 
-\* Tables written by checks/c01.py from the real code (harness `inproc naming`) and the chosen feature profile.
+\* Tables written by lib/c01_naming.py from the real code (harness `inproc naming`).
+\*   T.raw            the shape alphabet (raw IDL identifiers), shared by all plan entries
+\*   T.styles[s]      per naming profile (option list given to the real HandleOptions): ident, lower, pfxNew, sfxArgs,
+\*                    sfxResult, argsAn, argsId, resAn, resId, compat
+\*   T.plan[e]        one model run: [style, feat, family, k, pkgNames, fieldNames, paramNames, fnNames]
+\* One TLC run explores every plan entry (variable ent, fixed in Init).
 T == JsonDeserialize("naming_tables.json")
-Raw       == T.raw        \* sequence of raw IDL identifiers (the shape alphabet)
-Ident     == T.ident      \* Ident[i] = CodeUtils.Identify(Raw[i])                       (real code)
-Lower     == T.lower      \* Lower[i] = common.LowerFirstRune(Ident[i])                  (real code)
-PfxNew    == T.pfxNew     \* strings.HasPrefix(Ident[i], "New")
-SfxArgs   == T.sfxArgs    \* strings.HasSuffix(Ident[i], "Args")
-SfxResult == T.sfxResult  \* strings.HasSuffix(Ident[i], "Result")
-ArgsAn    == T.argsAn     \* [i][j]: an = Raw[i] \o Identify("$" \o Raw[j] \o "_args")   (real code)
-ArgsId    == T.argsId     \* [i][j]: Identify("$" \o an)
-ResAn     == T.resAn      \* the same for "_result"
-ResId     == T.resId
-Compat    == T.compat     \* feature compatible_names (as the real HandleOptions sets it)
-Keywords  == {T.keywords[i] : i \in 1..Len(T.keywords)}    \* generator/golang/types.go isKeywords
-Feat      == T.feat       \* [setter, deepEqual, unknown, reflection, fieldMask, halfway, noProcessor, enumAnno, fastgo : BOOLEAN]
-IdlName   == T.idlName    \* base name of the IDL file and ToCamel of it (reflection file-level names)
-IdlCamel  == T.idlCamel
-Helper    == T.helper     \* raw name of the neutral helper definition
+Raw      == T.raw
+Plan     == T.plan
+Keywords == {T.keywords[i] : i \in 1..Len(T.keywords)}    \* generator/golang/types.go isKeywords
+IdlName  == T.idlName    \* base name of the IDL file and ToCamel of it (reflection file-level names)
+IdlCamel == T.idlCamel
+Helper   == T.helper     \* raw name of the neutral helper definition
 IdxSet(s) == {s[i] : i \in 1..Len(s)}
-PkgNames   == IdxSet(T.pkgNames)      \* index sets into Raw: the alphabets
-FieldNames0 == IdxSet(T.fieldNames)
-ParamNames == IdxSet(T.paramNames)
-FnNames    == IdxSet(T.fnNames)
 
 CONSTANTS
-  Family,     \* "package" | "struct" | "function" | "service"
-  K,          \* max number of names drawn per scope
   MaxProbe    \* bound on the rename loop of Add (ProbeBounded says it is never reached)
 
-VARIABLES pc, defs, at, globals, res, decl, panic
+VARIABLES ent, pc, draft, defs, at, globals, res, decl, panic
 
-vars == <<pc, defs, at, globals, res, decl, panic>>
+vars == <<ent, pc, draft, defs, at, globals, res, decl, panic>>
+
+P         == Plan[ent]
+S         == T.styles[P.style]
+Ident     == S.ident      \* Ident[i] = CodeUtils.Identify(Raw[i])                       (real code)
+Lower     == S.lower      \* Lower[i] = common.LowerFirstRune(Ident[i])                  (real code)
+PfxNew    == S.pfxNew     \* strings.HasPrefix(Ident[i], "New")
+SfxArgs   == S.sfxArgs    \* strings.HasSuffix(Ident[i], "Args")
+SfxResult == S.sfxResult  \* strings.HasSuffix(Ident[i], "Result")
+ArgsAn    == S.argsAn     \* [i][j]: an = Raw[i] \o Identify("$" \o Raw[j] \o "_args")   (real code)
+ArgsId    == S.argsId     \* [i][j]: Identify("$" \o an)
+ResAn     == S.resAn      \* the same for "_result"
+ResId     == S.resId
+Compat    == S.compat     \* feature compatible_names (as the real HandleOptions sets it)
+Feat      == P.feat       \* [setter, deepEqual, unknown, reflection, fieldMask, halfway, noProcessor, enumAnno, fastgo : BOOLEAN]
+Family    == P.family     \* "package" | "struct" | "function" | "service"
+K         == P.k          \* max number of names drawn per scope
+PkgNames   == IdxSet(P.pkgNames)      \* index sets into Raw: the alphabets
+FieldNames0 == IdxSet(P.fieldNames)
+ParamNames == IdxSet(P.paramNames)
+FnNames    == IdxSet(P.fnNames)
 
 Kinds == {"service", "struct", "union", "exception", "enum", "tdstruct", "tdbase", "const"}
 \* installNames order: group rank, then source order
@@ -338,62 +347,54 @@ HelperIdx == CHOOSE i \in 1..Len(Raw) : Raw[i] = Helper
 FieldX == [n |-> XIdx, id |-> 1, isset |-> TRUE]               \* `1: optional i32 x`
 Fn0(j) == [n |-> j, void |-> TRUE, oneway |-> FALSE, args |-> <<>>, throws |-> <<>>]
 AIdx == CHOOSE i \in 1..Len(Raw) : Raw[i] = "A"
+BarIdx == CHOOSE j \in 1..Len(Raw) : Raw[j] = "bar"
 
 Def(k, n) == [k |-> k, n |-> n,
               fs |-> IF k \in {"struct", "union", "exception"} THEN <<FieldX>> ELSE <<>>,
-              fns |-> IF k = "service" THEN <<Fn0(CHOOSE j \in FnNames : Raw[j] = "bar")>> ELSE <<>>,
+              fns |-> IF k = "service" THEN <<Fn0(BarIdx)>> ELSE <<>>,
               vals |-> IF k = "enum" THEN <<AIdx>> ELSE <<>>]
 
-\* struct family: one struct-like with up to K fields (ids 1.., field k is optional iff k is odd)
-FieldSeqs == UNION {[1..m -> FieldNames0] : m \in 1..K}
+\* struct family: one struct-like with the drafted fields (second field has a negative id; odd fields are optional)
 StructDef(cat, fsq) == [k |-> cat, n |-> HelperIdx,
                         fs |-> [i \in 1..Len(fsq) |-> [n |-> fsq[i], id |-> IF i = 2 THEN -2 ELSE i, isset |-> (cat = "union" \/ i % 2 = 1)]],
                         fns |-> <<>>, vals |-> <<>>]
-\* function family: one service `Zsvc`-like helper with one function `bar` with up to K parameters / throws
-ParamSeqs(m) == [1..m -> ParamNames]
+\* function family: service Helper with one function `bar`; the first na drafted names are arguments, the rest throws
+FuncDef(psq, na, void) ==
+  LET mk(i) == [n |-> psq[i], id |-> i, isset |-> FALSE]
+      fn == [n |-> BarIdx, void |-> void, oneway |-> FALSE,
+             args |-> [i \in 1..na |-> mk(i)], throws |-> [i \in 1..(Len(psq) - na) |-> mk(na + i)]]
+  IN [k |-> "service", n |-> HelperIdx, fs |-> <<>>, fns |-> <<fn>>, vals |-> <<>>]
+\* service family: service Helper with the drafted function names (odd ones void)
+SvcDef(fsq) == [k |-> "service", n |-> HelperIdx, fs |-> <<>>,
+                fns |-> [i \in 1..Len(fsq) |-> [Fn0(fsq[i]) EXCEPT !.void = (i % 2 = 1)]], vals |-> <<>>]
 
-Distinct(sq) == \A i, j \in 1..Len(sq) : i # j => sq[i] # sq[j]
+Init == /\ ent \in 1..Len(Plan)
+        /\ pc = "pick" /\ draft = <<>> /\ defs = <<>> /\ at = 1 /\ globals = NS0 /\ res = <<>> /\ decl = {} /\ panic = FALSE
 
-Init == /\ pc = "pick" /\ defs = <<>> /\ at = 1 /\ globals = NS0 /\ res = <<>> /\ decl = {} /\ panic = FALSE
+\* the drafted names: (kind, name) pairs in installNames order for the package family, names otherwise; all distinct
+Items == IF Family = "package" THEN {[k |-> k, n |-> n] : k \in Kinds, n \in PkgNames}
+         ELSE {[k |-> "", n |-> n] : n \in (CASE Family = "struct" -> FieldNames0 [] Family = "function" -> ParamNames
+                                                [] OTHER -> FnNames)}
+PickName == /\ pc = "pick" /\ Len(draft) < K
+            /\ \E it \in Items :
+                 /\ \A i \in 1..Len(draft) : draft[i].n # it.n
+                 /\ (Family = "package" /\ Len(draft) > 0) => Rank(draft[Len(draft)].k) <= Rank(it.k)
+                 /\ draft' = Append(draft, it)
+            /\ UNCHANGED <<ent, pc, defs, at, globals, res, decl, panic>>
 
-\* package family: grow the definition list (installNames order, distinct raw names)
-PickDef == /\ pc = "pick" /\ Family = "package" /\ Len(defs) < K
-           /\ \E k \in Kinds, n \in PkgNames :
-                /\ \A i \in 1..Len(defs) : defs[i].n # n
-                /\ Len(defs) > 0 => Rank(defs[Len(defs)].k) <= Rank(k)
-                /\ defs' = Append(defs, Def(k, n))
-           /\ UNCHANGED <<pc, at, globals, res, decl, panic>>
+Names(d) == [i \in 1..Len(d) |-> d[i].n]
+Programs(d) ==
+  CASE Family = "package"  -> {[i \in 1..Len(d) |-> Def(d[i].k, d[i].n)]}
+    [] Family = "struct"   -> {<<StructDef(cat, Names(d))>> : cat \in {"struct", "union", "exception"}}
+    [] Family = "function" -> {<<FuncDef(Names(d), na, void)>> : na \in {x \in 0..Len(d) : Len(d) - x <= 2}, void \in BOOLEAN}
+    [] OTHER               -> {<<SvcDef(Names(d))>>}
 
-PickStruct == /\ pc = "pick" /\ Family = "struct" /\ defs = <<>>
-              /\ \E cat \in {"struct", "union", "exception"}, fsq \in FieldSeqs :
-                   /\ Distinct(fsq)
-                   /\ defs' = <<StructDef(cat, fsq)>>
-              /\ UNCHANGED <<pc, at, globals, res, decl, panic>>
-
-\* function family: service Helper with function `bar`; the first na names are arguments, the rest throws
-PickFunction == /\ pc = "pick" /\ Family = "function" /\ defs = <<>>
-                /\ \E m \in 1..K, void \in BOOLEAN :
-                   \E psq \in ParamSeqs(m), na \in 0..m :
-                     /\ Distinct(psq)
-                     /\ m - na <= 2
-                     /\ LET mk(i) == [n |-> psq[i], id |-> i, isset |-> FALSE]
-                            fn == [n |-> CHOOSE j \in FnNames : Raw[j] = "bar", void |-> void, oneway |-> FALSE,
-                                   args |-> [i \in 1..na |-> mk(i)], throws |-> [i \in 1..(m - na) |-> mk(na + i)]]
-                        IN defs' = <<[k |-> "service", n |-> HelperIdx, fs |-> <<>>, fns |-> <<fn>>, vals |-> <<>>]>>
-                /\ UNCHANGED <<pc, at, globals, res, decl, panic>>
-
-\* service family: service Helper with up to K functions named from FnNames
-PickService == /\ pc = "pick" /\ Family = "service" /\ defs = <<>>
-               /\ \E m \in 1..K : \E fsq \in [1..m -> FnNames] :
-                    /\ Distinct(fsq)
-                    /\ defs' = <<[k |-> "service", n |-> HelperIdx, fs |-> <<>>,
-                                  fns |-> [i \in 1..m |-> [Fn0(fsq[i]) EXCEPT !.void = (i % 2 = 1)]], vals |-> <<>>]>>
-               /\ UNCHANGED <<pc, at, globals, res, decl, panic>>
-
-Start == /\ pc = "pick" /\ Len(defs) > 0
+Start == /\ pc = "pick" /\ Len(draft) > 0
+         /\ \E prog \in Programs(draft) : defs' = prog
          /\ pc' = "build"
          /\ decl' = FileDecls
-         /\ UNCHANGED <<defs, at, globals, res, panic>>
+         /\ draft' = <<>>
+         /\ UNCHANGED <<ent, at, globals, res, panic>>
 
 Step(b) == /\ globals' = b.g
            /\ panic' = ~b.ok
@@ -401,7 +402,7 @@ Step(b) == /\ globals' = b.g
            /\ decl' = decl \cup b.decl
            /\ at' = at + 1
            /\ Assert(b.probe < MaxProbe, "ProbeBounded")
-           /\ UNCHANGED <<pc, defs>>
+           /\ UNCHANGED <<ent, pc, draft, defs>>
 
 Building == pc = "build" /\ ~panic /\ at <= Len(defs)
 \* (\E b \in {e} makes TLC evaluate the builder once per step)
@@ -414,9 +415,9 @@ DoConstant   == Building /\ defs[at].k = "const" /\ \E b \in {BuildConstant(glob
 
 Finish == /\ pc = "build" /\ (panic \/ at > Len(defs))
           /\ pc' = "done"
-          /\ UNCHANGED <<defs, at, globals, res, decl, panic>>
+          /\ UNCHANGED <<ent, draft, defs, at, globals, res, decl, panic>>
 
-Next == PickDef \/ PickStruct \/ PickFunction \/ PickService \/ Start
+Next == PickName \/ Start
         \/ DoService \/ DoStructLike \/ DoEnum \/ DoTypedef \/ DoConstant \/ Finish
 
 Spec == Init /\ [][Next]_vars
@@ -439,6 +440,6 @@ RefIntegrity == (pc = "done" /\ ~panic) =>
 DirectNamesDistinct == \A i, j \in 1..Len(res) : i # j => res[i].name # res[j].name
 
 Emit == pc = "done" =>
-          PrintT("CASE " \o ToJson([defs |-> defs, res |-> res, panic |-> panic, clash |-> ~NoClash /\ ~panic,
+          PrintT("CASE " \o ToJson([e |-> ent, defs |-> defs, res |-> res, panic |-> panic, clash |-> ~NoClash /\ ~panic,
                                     clashes |-> IF NoClash \/ panic THEN {} ELSE Clashes]))
 =============================================================================
